@@ -84,6 +84,7 @@ import Fcgi.Props.C12Chain
 import Fcgi.Props.C12NoFuel
 import Fcgi.Props.C12Chain2
 import Fcgi.Props.C12Chain3
+import Fcgi.Props.C12Chain4
 import Fcgi.Props.C13
 import Fcgi.Props.C13Conn
 import Fcgi.Props.C14b
@@ -104,6 +105,10 @@ import Fcgi.Props.C18None
 import Fcgi.Props.C18None2
 import Fcgi.Props.C19
 import Fcgi.Props.C20
+import Fcgi.Props.C07NoFuel6
+import Fcgi.Props.C11NoFuel2
+import Fcgi.Props.C12NoFuel3
+import Fcgi.Props.C12NoFuel2
 
 /-!
 # Headline — one checked statement per property
@@ -135,11 +140,11 @@ guard is unreachable for every script), so no statement about the model NEEDS a 
 GONE from the core family (C07 Clauses 1–4, `Props/C07NoFuel.lean`: single request of every role, k keep-alive
 requests) and from the echo Responder (C07 Clauses 21, 23, 25, 26) and the Filter gate theorems (C09 Clauses 11–17).  It is also gone from C07 Clause 6 (`C07NoFuel2`), C11 Clause 5
 (`C11NoFuel`), C12 Clauses 1, 5, 9, 10 (`C12NoFuel`: Responder EOF / failure at any offset, write error, read error at
-any index) and C14 Clauses 1–2 (`C14NoFuel`).  It REMAINS, as an artefact of the proofs only (removable by the recipe of
-`Proofs/E2ENoFuel.lean`), in: C07 Clauses 10 and 12 (`2·n + …`: the number of `fill_buf`/`consume` rounds; Clause 10 also `|content| ≤ n`) —
-Clauses 8 and 11 lost it in `C07NoFuel5`, Clauses 13–18 in `C07NoFuel3` / `C07NoFuel4`; the follow-up requests
-`Sent.OKu` of C11 Clauses 1, 6, 9; C12 Clauses 2, 3 (Filter / Authorizer any-offset) and 12–17 (chain: `UReq.OKu` and, in 12–13, the
-last request's `hhf`).
+any index) and C14 Clauses 1–2 (`C14NoFuel`).  The chain bundles are `Sent.OKn` / `UReq.OKn`
+(no cost field; `Props/C07NoFuel.lean`, `C07NoFuel6.lean`, `C11NoFuel2.lean`, `C12NoFuel2.lean`, `C12NoFuel3.lean`).  It REMAINS, as an
+artefact of the proofs only (removable by the recipe of `Proofs/E2ENoFuel.lean`), in FOUR conjuncts: C07 Clauses 10 and 12
+(`2·n + …`: the number of `fill_buf`/`consume` rounds; Clause 10 also `|content| ≤ n`) and C12 Clauses 2, 3 (Filter / Authorizer
+truncation at any offset: `wcost |data| + c ≤ 1000`).
 `C11Clause7` is the `_anysize` table of
 `Props/C11FilterAnysize.lean` (no `|Stdin wire| ≤ 31000`).
 
@@ -1559,14 +1564,14 @@ end Fcgi.Headline
 13. `C07W.single_request_writers_e2e_nofuel` — TWO writers (Stdout, Stderr), ANY sequence of `write_all`s
    (empty, or longer than 65 535 bytes = several records): every write is on the wire exactly once, in script
    order, records never interleaved; no size bound
-14. `C07W.writers_chain_e2e_nofuel` — … and with KEEP_CONN the connection then serves the following requests
+14. `C07W.writers_chain_e2e_okn` — … and with KEEP_CONN the connection then serves the following requests
 15. `C07W.single_request_writers_flush_e2e_nomore_nofuel` — … with `flush` calls anywhere in the script and
    arbitrary Pending/Ok flush answers: a flush contributes no byte (no hypothesis on later scripts, no cost
    hypothesis)
-16. `C07W.writers_flush_chain_e2e_nofuel` — … chain step of the flush variant
+16. `C07W.writers_flush_chain_e2e_okn` — … chain step of the flush variant
 17. `C07W.filter_writers_flush_e2e_nomore_nofuel` — the same for a FILTER: reads Stdin, switches to Data,
    reads Data, then any `write_all`/`flush` script on two writers (no `hmore`, no cost hypothesis)
-18. `C07W.filter_writers_flush_chain_e2e_nofuel` — … chain step
+18. `C07W.filter_writers_flush_chain_e2e_okn` — … chain step
 19. `C07SF.handlerPoll_guard_unreachable` — WHY no cost hypothesis is needed: with the fuel `pollConn`
    passes (it pays for what is left of the handler script) a panic of the handler poll is a modelled panic site
    of the Rust, never the model's fuel guard — for EVERY script
@@ -1939,7 +1944,7 @@ end
 section
 namespace Fcgi.C07W
 open Fcgi Fcgi.Req Fcgi.Str Fcgi.Async Fcgi.Run Fcgi.Spec Fcgi.E2E Fcgi.C07E Fcgi.C07U Fcgi.C07B
-/-- … and with KEEP_CONN the connection then serves the following requests  (= `Fcgi.C07W.writers_chain_e2e_nofuel`, `Props/C07NoFuel3.lean`) -/
+/-- … and with KEEP_CONN the connection then serves the following requests  (= `Fcgi.C07W.writers_chain_e2e_okn`, `Props/C07NoFuel6.lean`) -/
 def C07Clause14 : Prop :=
   ∀ {p : Preamble} {recs : List Rec} {content : Bytes} {srecs : List Rec}
     {b mc : Nat} {W : WList} {st : ExitStatus} (x : UReq) (xs : List UReq) {t : Transport} {fuel : Nat}
@@ -1947,7 +1952,7 @@ def C07Clause14 : Prop :=
     (hpairs : ∀ q ∈ p.pairs, (NV.enc q).length ≤ alignedBufsize b)
     (hnoise : NoiseFits (alignedBufsize b) recs)
     (hs : StreamRecs p.id 5 content srecs) (hsn : NoiseFits (alignedBufsize b) srecs)
-    (hok : ∀ y ∈ x :: xs, y.OKu b)
+    (hok : ∀ y ∈ x :: xs, y.OKn b)
     (hin : t.input = serAll recs ++ serAll srecs) (hben : Ben t) (hem : t.endMode = .pend)
     (hev : hsCount t.events = 0) (hfuel : t.rd.length + t.wr.length + 1 ≤ fuel),
     ∃ c' O₁ O₂ A,
@@ -1964,7 +1969,7 @@ def C07Clause14 : Prop :=
 
 theorem C07Clause14_holds : C07Clause14 := by
   unfold C07Clause14
-  exact @writers_chain_e2e_nofuel
+  exact @writers_chain_e2e_okn
 
 end Fcgi.C07W
 end
@@ -1998,7 +2003,7 @@ end
 section
 namespace Fcgi.C07W
 open Fcgi Fcgi.Req Fcgi.Str Fcgi.Async Fcgi.Run Fcgi.Spec Fcgi.E2E Fcgi.C07E Fcgi.C07U Fcgi.C07B
-/-- … chain step of the flush variant  (= `Fcgi.C07W.writers_flush_chain_e2e_nofuel`, `Props/C07NoFuel4.lean`) -/
+/-- … chain step of the flush variant  (= `Fcgi.C07W.writers_flush_chain_e2e_okn`, `Props/C07NoFuel6.lean`) -/
 def C07Clause16 : Prop :=
   ∀ {p : Preamble} {recs : List Rec} {content : Bytes} {srecs : List Rec}
     {b mc : Nat} {W : FList} {st : ExitStatus} (x : UReq) (xs : List UReq) {t : Transport} {fuel : Nat}
@@ -2006,7 +2011,7 @@ def C07Clause16 : Prop :=
     (hpairs : ∀ q ∈ p.pairs, (NV.enc q).length ≤ alignedBufsize b)
     (hnoise : NoiseFits (alignedBufsize b) recs)
     (hs : StreamRecs p.id 5 content srecs) (hsn : NoiseFits (alignedBufsize b) srecs)
-    (hok : ∀ y ∈ x :: xs, y.OKu b)
+    (hok : ∀ y ∈ x :: xs, y.OKn b)
     (hin : t.input = serAll recs ++ serAll srecs) (hben : Ben t) (hem : t.endMode = .pend)
     (hev : hsCount t.events = 0) (hfl : ∀ a ∈ t.fl, a ≠ FlAns.err)
     (hfuel : t.rd.length + t.wr.length + t.fl.length + 1 ≤ fuel),
@@ -2024,7 +2029,7 @@ def C07Clause16 : Prop :=
 
 theorem C07Clause16_holds : C07Clause16 := by
   unfold C07Clause16
-  exact @writers_flush_chain_e2e_nofuel
+  exact @writers_flush_chain_e2e_okn
 
 end Fcgi.C07W
 end
@@ -2060,7 +2065,7 @@ end
 section
 namespace Fcgi.C07W
 open Fcgi Fcgi.Req Fcgi.Str Fcgi.Async Fcgi.Run Fcgi.Spec Fcgi.E2E Fcgi.C07E Fcgi.C07U Fcgi.C07B
-/-- … chain step  (= `Fcgi.C07W.filter_writers_flush_chain_e2e_nofuel`, `Props/C07NoFuel4.lean`) -/
+/-- … chain step  (= `Fcgi.C07W.filter_writers_flush_chain_e2e_okn`, `Props/C07NoFuel6.lean`) -/
 def C07Clause18 : Prop :=
   ∀ {p : Preamble} {recs : List Rec} {content : Bytes} {srecs : List Rec}
     {content2 : Bytes} {drecs : List Rec}
@@ -2070,7 +2075,7 @@ def C07Clause18 : Prop :=
     (hnoise : NoiseFits (alignedBufsize b) recs)
     (hs : StreamRecs p.id 5 content srecs) (hsn : NoiseFits (alignedBufsize b) srecs)
     (hd : StreamRecs p.id 8 content2 drecs) (hdn : NoiseFits (alignedBufsize b) drecs)
-    (hok : ∀ y ∈ x :: xs, y.OKu b)
+    (hok : ∀ y ∈ x :: xs, y.OKn b)
     (hin : t.input = serAll recs ++ (serAll srecs ++ serAll drecs)) (hben : Ben t) (hem : t.endMode = .pend)
     (hev : hsCount t.events = 0) (hfl : ∀ a ∈ t.fl, a ≠ FlAns.err)
     (hfuel : t.rd.length + t.wr.length + t.fl.length + 1 ≤ fuel),
@@ -2089,7 +2094,7 @@ def C07Clause18 : Prop :=
 
 theorem C07Clause18_holds : C07Clause18 := by
   unfold C07Clause18
-  exact @filter_writers_flush_chain_e2e_nofuel
+  exact @filter_writers_flush_chain_e2e_okn
 
 end Fcgi.C07W
 end
@@ -3318,15 +3323,15 @@ end Fcgi.Headline
 
 **Clause by clause.**
 * “exactly one EndRequest(RequestComplete): at once and without invoking the handler if it arrives during
-  Params” — Clause 1 (`abort_in_params_e2e_unbounded`; this and the other e2e clauses: the `_unbounded`
-  versions of `Props/E2EUnbounded.lean`, no bound on the wire length, no model-fuel hypothesis).
+  Params” — Clause 1 (`abort_in_params_e2e_okn`; this and the other e2e clauses: the `_unbounded` versions
+  of `Props/E2EUnbounded.lean`, no bound on the wire length, no model-fuel hypothesis).
 * “or — later — after the handler's next input read fails with a connection-aborted error, carrying the
   abort application status unless the handler chose its own” — Clauses 2–3
   (`abort_mid_stream_e2e_unbounded`, `abort_own_status_e2e_unbounded`).
 * “input delivered before the error is a prefix of what the client sent, an AbortRequest for any other id is
   ignored, and with keep-connection the same connection then serves the next request” — Clauses 4–6
   (`abort_mid_stream_prefix_e2e_unbounded`, `foreign_abort_ignored_e2e_nofuel`,
-  `abort_mid_stream_next_e2e_unbounded`); Clause 7 (`filter_abort_table_full_anysize`,
+  `abort_mid_stream_next_e2e_okn`); Clause 7 (`filter_abort_table_full_anysize`,
   `Props/C11FilterAnysize.lean`: no bound on the Stdin wire either): every abort placement × handler row for
   a Filter, exactly one EndRequest each.
 * “Responder cells beyond the canonical reading handler” — Clauses 8–11: abort in Params with nothing behind
@@ -3334,7 +3339,7 @@ end Fcgi.Headline
   end-of-stream: no e2e theorem), the error kind.
 
 **The conjuncts of `C11_headline`.**
-1. `C11E.abort_in_params_e2e_unbounded` — abort inside Params (followed by a complete request `q`): one
+1. `C11E.abort_in_params_e2e_okn` — abort inside Params (followed by a complete request `q`): one
    EndRequest(RequestComplete), no handler; alone: Clause 8
 2. `C11E.abort_mid_stream_e2e_unbounded` — abort later: the handler's next read fails with
    ConnectionAborted, one EndRequest with the abort status
@@ -3342,10 +3347,10 @@ end Fcgi.Headline
 4. `C11E.abort_mid_stream_prefix_e2e_unbounded` — input delivered before the error is a prefix of what was
    sent
 5. `C11E.foreign_abort_ignored_e2e_nofuel` — an AbortRequest for another id is ignored
-6. `C11E.abort_mid_stream_next_e2e_unbounded` — with KEEP_CONN the connection serves the next request
+6. `C11E.abort_mid_stream_next_e2e_okn` — with KEEP_CONN the connection serves the next request
 7. `C11F.filter_abort_table_full_anysize` — Filter: every placement of the abort × handler row, any sizes
 8. `C11E.abort_in_params_alone_e2e_unbounded` — abort inside Params with nothing behind it
-9. `C11E.abort_own_status_next_e2e_unbounded` — own status + KEEP_CONN: the next request is served
+9. `C11E.abort_own_status_next_e2e_okn` — own status + KEEP_CONN: the next request is served
 10. `C11.close_tolerates_abort` — poll level: a Responder that does not read / is past end-of-stream —
    `close` tolerates the aborted state
 11. `C11.abort_maps_to_connection_aborted` — the error KIND: the parser's abort signal reaches the handler
@@ -3379,7 +3384,7 @@ end Fcgi.Headline
 section
 namespace Fcgi.C11E
 open Fcgi Fcgi.Req Fcgi.Str Fcgi.Async Fcgi.Run Fcgi.Spec Fcgi.E2E Fcgi.C07E
-/-- abort inside Params (followed by a complete request `q`): one EndRequest(RequestComplete), no handler; alone: Clause 8  (= `Fcgi.C11E.abort_in_params_e2e_unbounded`, `Props/E2EUnbounded.lean`) -/
+/-- abort inside Params (followed by a complete request `q`): one EndRequest(RequestComplete), no handler; alone: Clause 8  (= `Fcgi.C11E.abort_in_params_e2e_okn`, `Props/C11NoFuel2.lean`) -/
 def C11Clause1 : Prop :=
   ∀ {p : Preamble} {hd suf : List Rec} {a : Rec} {b mc : Nat} {q : Sent}
     {t : Transport} {fuel : Nat}
@@ -3387,7 +3392,7 @@ def C11Clause1 : Prop :=
     (ha : IsAbort p.id a)
     (hpairs : ∀ x ∈ p.pairs, (NV.enc x).length ≤ alignedBufsize b)
     (hnoise : NoiseFits (alignedBufsize b) (hd ++ suf))
-    (hq : q.OKu b)
+    (hq : q.OKn b)
     (hin : t.input = serAll hd ++ a.ser ++ q.wire) (hben : Ben t) (hev : hsCount t.events = 0)
     (hfuel : t.rd.length + t.wr.length + 1 ≤ fuel),
     ∃ c' fin O₁ O₂, runTask fuel (connS b mc t [q.handler]) 0 none = (c', fin) ∧
@@ -3397,7 +3402,7 @@ def C11Clause1 : Prop :=
 
 theorem C11Clause1_holds : C11Clause1 := by
   unfold C11Clause1
-  exact @abort_in_params_e2e_unbounded
+  exact @abort_in_params_e2e_okn
 
 end Fcgi.C11E
 end
@@ -3507,7 +3512,7 @@ end
 section
 namespace Fcgi.C11E
 open Fcgi Fcgi.Req Fcgi.Str Fcgi.Async Fcgi.Run Fcgi.Spec Fcgi.E2E Fcgi.C07E
-/-- with KEEP_CONN the connection serves the next request  (= `Fcgi.C11E.abort_mid_stream_next_e2e_unbounded`, `Props/E2EUnbounded.lean`) -/
+/-- with KEEP_CONN the connection serves the next request  (= `Fcgi.C11E.abort_mid_stream_next_e2e_okn`, `Props/C11NoFuel2.lean`) -/
 def C11Clause6 : Prop :=
   ∀ {p : Preamble} {recs : List Rec} {c1 : Bytes} {body : List Rec} {a : Rec}
     {b mc : Nat} {data : Bytes} {st : ExitStatus} {q : Sent} {t : Transport} {fuel : Nat}
@@ -3515,7 +3520,7 @@ def C11Clause6 : Prop :=
     (hpairs : ∀ x ∈ p.pairs, (NV.enc x).length ≤ alignedBufsize b)
     (hnoise : NoiseFits (alignedBufsize b) recs)
     (hbody : Body p.id 5 c1 body) (hbn : NoiseFits (alignedBufsize b) body) (ha : IsAbort p.id a)
-    (hq : q.OKu b)
+    (hq : q.OKn b)
     (hin : t.input = serAll recs ++ (serAll body ++ (a.ser ++ q.wire))) (hben : Ben t)
     (hev : hsCount t.events = 0) (hfuel : t.rd.length + t.wr.length + 1 ≤ fuel),
     ∃ c' fin O₁ O₂ P₁ P₂,
@@ -3527,7 +3532,7 @@ def C11Clause6 : Prop :=
 
 theorem C11Clause6_holds : C11Clause6 := by
   unfold C11Clause6
-  exact @abort_mid_stream_next_e2e_unbounded
+  exact @abort_mid_stream_next_e2e_okn
 
 end Fcgi.C11E
 end
@@ -3634,7 +3639,7 @@ end
 section
 namespace Fcgi.C11E
 open Fcgi Fcgi.Req Fcgi.Str Fcgi.Async Fcgi.Run Fcgi.Spec Fcgi.E2E Fcgi.C07E
-/-- own status + KEEP_CONN: the next request is served  (= `Fcgi.C11E.abort_own_status_next_e2e_unbounded`, `Props/E2EUnbounded.lean`) -/
+/-- own status + KEEP_CONN: the next request is served  (= `Fcgi.C11E.abort_own_status_next_e2e_okn`, `Props/C11NoFuel2.lean`) -/
 def C11Clause9 : Prop :=
   ∀ {p : Preamble} {recs : List Rec} {c1 : Bytes} {body : List Rec} {a : Rec}
     {b mc : Nat} {st : ExitStatus} {q : Sent} {t : Transport} {fuel : Nat}
@@ -3642,7 +3647,7 @@ def C11Clause9 : Prop :=
     (hpairs : ∀ x ∈ p.pairs, (NV.enc x).length ≤ alignedBufsize b)
     (hnoise : NoiseFits (alignedBufsize b) recs)
     (hbody : Body p.id 5 c1 body) (hbn : NoiseFits (alignedBufsize b) body) (ha : IsAbort p.id a)
-    (hq : q.OKu b)
+    (hq : q.OKn b)
     (hin : t.input = serAll recs ++ (serAll body ++ (a.ser ++ q.wire))) (hben : Ben t)
     (hev : hsCount t.events = 0) (hfuel : t.rd.length + t.wr.length + 1 ≤ fuel),
     ∃ c' fin O₁ O₂ P₁ P₂,
@@ -3654,7 +3659,7 @@ def C11Clause9 : Prop :=
 
 theorem C11Clause9_holds : C11Clause9 := by
   unfold C11Clause9
-  exact @abort_own_status_next_e2e_unbounded
+  exact @abort_own_status_next_e2e_okn
 
 end Fcgi.C11E
 end
@@ -3815,21 +3820,22 @@ end Fcgi.Headline
 10. `C12E.read_err_any_offset_e2e_nofuel` — the transport FAILS (instead of ending) at ANY byte offset: RET,
    same log and handler count as the EOF run (from `runTask_eof_err`)
 11. `C12E.read_err_in_preamble_e2e_unbounded` — a read error inside the preamble is swallowed: no handler
-12. `C12E.eof_in_last_request_e2e` — k complete keep-alive requests, then EOF at ANY offset inside the wire
-   of one more Responder request: the k are answered completely, then RET; k or k+1 handler starts; log = k
-   segments ++ byte prefix of the last answer
-13. `C12E.read_err_in_last_request_e2e` — … and the transport FAILS at that offset: RET, same log and
+12. `C12E.eof_in_last_request_e2e_okn` — k complete keep-alive requests, then EOF at ANY offset inside the
+   wire of one more Responder request: the k are answered completely, then RET; k or k+1 handler starts; log =
+   k segments ++ byte prefix of the last answer
+13. `C12E.read_err_in_last_request_e2e_okn` — … and the transport FAILS at that offset: RET, same log and
    handler count as the EOF run
-14. `C12E.write_error_in_last_request_e2e` — k complete keep-alive requests, then one more whose i-th WRITE
-   answer (answer n+i of the script, n = what the first k consumed) fails: never reached (answered completely)
-   or RET, log = k segments ++ byte prefix of the last answer, nothing written after the failing call; GAP: the
-   fault is inserted at the hand-over (the prefix is run on the benign script)
-15. `C12E.read_error_in_last_request_at_index_e2e` — … the same for the i-th READ answer of the last request
-16. `C12E.write_error_in_last_request_e2e_whole` — the same with the failing write answer IN THE SCRIPT FROM
-   THE START (one closed-loop run on the faulty transport); restriction `hrem`: the benign prefix leaves at
-   least one answer of `pre`, i.e. the fault is not the very first write answer of the last request
-17. `C12E.read_error_in_last_request_at_index_e2e_whole` — … and for an erroring READ answer present from
-   the start (same restriction)
+14. `C12E.write_error_in_last_request_e2e_okn` — k complete keep-alive requests, then one more whose i-th
+   WRITE answer (answer n+i of the script, n = what the first k consumed) fails: never reached (answered
+   completely) or RET, log = k segments ++ byte prefix of the last answer, nothing written after the failing
+   call; GAP: the fault is inserted at the hand-over (the prefix is run on the benign script)
+15. `C12E.read_error_in_last_request_at_index_e2e_okn` — … the same for the i-th READ answer of the last
+   request
+16. `C12E.write_error_in_last_request_e2e_whole_okn` — the same with the failing write answer IN THE SCRIPT
+   FROM THE START (one closed-loop run on the faulty transport); restriction `hrem`: the benign prefix leaves
+   at least one answer of `pre`, i.e. the fault is not the very first write answer of the last request
+17. `C12E.read_error_in_last_request_at_index_e2e_whole_okn` — … and for an erroring READ answer present
+   from the start (same restriction)
 
 **Modelling assumptions (obligations.json).**
 * handlerPoll fuel is proved sufficient for scripts without read-to-end loops (a harness-script bound, not a
@@ -3845,7 +3851,7 @@ end Fcgi.Headline
 * OPEN: `prefix_wellformed_full` for `max_conns ≥ 2^64` (outside the code's usize)
 * single request, canonical handlers in the e2e clauses; faults in the LAST request of a keep-alive chain:
   Clauses 12–13 (`Props/C12Chain.lean`: EOF / transport failure at any byte offset; hypotheses: the k
-  earlier requests `UReq.OKu`, the last of them leaving nothing unread, cut strictly inside the wire);
+  earlier requests `UReq.OKn`, the last of them leaving nothing unread, cut strictly inside the wire);
   faults addressed by ANSWER index in the last request (a failing write / an erroring read at the i-th write
   / read call of the last request): Clauses 14–15 (`Props/C12Chain2.lean`; `runTask_suf`/`runTask_rl`: the
   scripts left after a run are suffixes of the original ones) — in Clauses 14–15 the fault is inserted at
@@ -4174,19 +4180,18 @@ end
 section
 namespace Fcgi.C12E
 open Fcgi Fcgi.Req Fcgi.Str Fcgi.Async Fcgi.Run Fcgi.Spec Fcgi.E2E Fcgi.C07E Fcgi.C07U Fcgi.C12Inv Fcgi.EofErr
-/-- k complete keep-alive requests, then EOF at ANY offset inside the wire of one more Responder request: the k are answered completely, then RET; k or k+1 handler starts; log = k segments ++ byte prefix of the last answer  (= `Fcgi.C12E.eof_in_last_request_e2e`, `Props/C12Chain.lean`) -/
+/-- k complete keep-alive requests, then EOF at ANY offset inside the wire of one more Responder request: the k are answered completely, then RET; k or k+1 handler starts; log = k segments ++ byte prefix of the last answer  (= `Fcgi.C12E.eof_in_last_request_e2e_okn`, `Props/C12NoFuel2.lean`) -/
 def C12Clause12 : Prop :=
   ∀ {b mc : Nat} (x : UReq) (xs : List UReq) {p : Preamble} {recs : List Rec}
     {content : Bytes} {srecs : List Rec} {data : Bytes} {st : ExitStatus} {t : Transport} {fuel : Nat} (j : Nat)
-    (hok : ∀ y ∈ x :: xs, y.OKu b) (hleft : ((x :: xs).getLast (by simp)).left = [])
+    (hok : ∀ y ∈ x :: xs, y.OKn b) (hleft : ((x :: xs).getLast (by simp)).left = [])
     (hwf : WellFormedPreamble p recs) (hrole : p.role = 1)
     (hpairs : ∀ q ∈ p.pairs, (NV.enc q).length ≤ alignedBufsize b)
     (hnoise : NoiseFits (alignedBufsize b) recs)
     (hs : StreamRecs p.id 5 content srecs) (hsn : NoiseFits (alignedBufsize b) srecs)
     (hj : j < (serAll recs ++ serAll srecs).length)
     (hin : t.input = x.wire) (hben : Ben t) (hem : t.endMode = .pend) (hev : hsCount t.events = 0)
-    (hfuel : t.rd.length + t.wr.length + 1 ≤ fuel)
-    (hhf : wcost data.length + 12 ≤ 1000),
+    (hfuel : t.rd.length + t.wr.length + 1 ≤ fuel),
     ∃ c₁ A c' O₁ O₂,
       -- the first `k` requests: served, the task parked
       closedLoop fuel (xs.map UReq.wire) (connS b mc t ((x :: xs).map UReq.handler ++ [(canonical data st, true)])) 0 =
@@ -4209,7 +4214,7 @@ def C12Clause12 : Prop :=
 
 theorem C12Clause12_holds : C12Clause12 := by
   unfold C12Clause12
-  exact @eof_in_last_request_e2e
+  exact @eof_in_last_request_e2e_okn
 
 end Fcgi.C12E
 end
@@ -4217,19 +4222,18 @@ end
 section
 namespace Fcgi.C12E
 open Fcgi Fcgi.Req Fcgi.Str Fcgi.Async Fcgi.Run Fcgi.Spec Fcgi.E2E Fcgi.C07E Fcgi.C07U Fcgi.C12Inv Fcgi.EofErr
-/-- … and the transport FAILS at that offset: RET, same log and handler count as the EOF run  (= `Fcgi.C12E.read_err_in_last_request_e2e`, `Props/C12Chain.lean`) -/
+/-- … and the transport FAILS at that offset: RET, same log and handler count as the EOF run  (= `Fcgi.C12E.read_err_in_last_request_e2e_okn`, `Props/C12NoFuel2.lean`) -/
 def C12Clause13 : Prop :=
   ∀ {b mc : Nat} (x : UReq) (xs : List UReq) {p : Preamble} {recs : List Rec}
     {content : Bytes} {srecs : List Rec} {data : Bytes} {st : ExitStatus} {t : Transport} {fuel : Nat} (j : Nat)
-    (hok : ∀ y ∈ x :: xs, y.OKu b) (hleft : ((x :: xs).getLast (by simp)).left = [])
+    (hok : ∀ y ∈ x :: xs, y.OKn b) (hleft : ((x :: xs).getLast (by simp)).left = [])
     (hwf : WellFormedPreamble p recs) (hrole : p.role = 1)
     (hpairs : ∀ q ∈ p.pairs, (NV.enc q).length ≤ alignedBufsize b)
     (hnoise : NoiseFits (alignedBufsize b) recs)
     (hs : StreamRecs p.id 5 content srecs) (hsn : NoiseFits (alignedBufsize b) srecs)
     (hj : j < (serAll recs ++ serAll srecs).length)
     (hin : t.input = x.wire) (hben : Ben t) (hem : t.endMode = .pend) (hev : hsCount t.events = 0)
-    (hfuel : t.rd.length + t.wr.length + 1 ≤ fuel)
-    (hhf : wcost data.length + 12 ≤ 1000),
+    (hfuel : t.rd.length + t.wr.length + 1 ≤ fuel),
     ∃ c₁ A ce c' O₁ O₂,
       closedLoop fuel (xs.map UReq.wire) (connS b mc t ((x :: xs).map UReq.handler ++ [(canonical data st, true)])) 0 =
         (c₁, "STALL") ∧
@@ -4245,7 +4249,7 @@ def C12Clause13 : Prop :=
 
 theorem C12Clause13_holds : C12Clause13 := by
   unfold C12Clause13
-  exact @read_err_in_last_request_e2e
+  exact @read_err_in_last_request_e2e_okn
 
 end Fcgi.C12E
 end
@@ -4253,11 +4257,11 @@ end
 section
 namespace Fcgi.C12E
 open Fcgi Fcgi.Req Fcgi.Str Fcgi.Async Fcgi.Run Fcgi.Spec Fcgi.E2E Fcgi.C07E Fcgi.C07U Fcgi.C12Inv Fcgi.Indep3 Fcgi.EofErr
-/-- k complete keep-alive requests, then one more whose i-th WRITE answer (answer n+i of the script, n = what the first k consumed) fails: never reached (answered completely) or RET, log = k segments ++ byte prefix of the last answer, nothing written after the failing call; GAP: the fault is inserted at the hand-over (the prefix is run on the benign script)  (= `Fcgi.C12E.write_error_in_last_request_e2e`, `Props/C12Chain2.lean`) -/
+/-- k complete keep-alive requests, then one more whose i-th WRITE answer (answer n+i of the script, n = what the first k consumed) fails: never reached (answered completely) or RET, log = k segments ++ byte prefix of the last answer, nothing written after the failing call; GAP: the fault is inserted at the hand-over (the prefix is run on the benign script)  (= `Fcgi.C12E.write_error_in_last_request_e2e_okn`, `Props/C12NoFuel3.lean`) -/
 def C12Clause14 : Prop :=
   ∀ {b mc : Nat} (x : UReq) (xs : List UReq) (y : UReq) {t : Transport} {fuel : Nat}
     (i : Nat) (bad : WrAns) (post : List WrAns) (hbad : bad = .err ∨ bad = .zero)
-    (hok : ∀ z ∈ x :: xs, z.OKu b) (hoky : y.OKu b) (hleft : ((x :: xs).getLast (by simp)).left = [])
+    (hok : ∀ z ∈ x :: xs, z.OKn b) (hoky : y.OKn b) (hleft : ((x :: xs).getLast (by simp)).left = [])
     (hin : t.input = x.wire) (hben : Ben t) (hem : t.endMode = .pend) (hev : hsCount t.events = 0)
     (hfuel : t.rd.length + t.wr.length + 1 ≤ fuel),
     ∃ c₁ A n,
@@ -4279,7 +4283,7 @@ def C12Clause14 : Prop :=
 
 theorem C12Clause14_holds : C12Clause14 := by
   unfold C12Clause14
-  exact @write_error_in_last_request_e2e
+  exact @write_error_in_last_request_e2e_okn
 
 end Fcgi.C12E
 end
@@ -4287,11 +4291,11 @@ end
 section
 namespace Fcgi.C12E
 open Fcgi Fcgi.Req Fcgi.Str Fcgi.Async Fcgi.Run Fcgi.Spec Fcgi.E2E Fcgi.C07E Fcgi.C07U Fcgi.C12Inv Fcgi.Indep3 Fcgi.EofErr
-/-- … the same for the i-th READ answer of the last request  (= `Fcgi.C12E.read_error_in_last_request_at_index_e2e`, `Props/C12Chain2.lean`) -/
+/-- … the same for the i-th READ answer of the last request  (= `Fcgi.C12E.read_error_in_last_request_at_index_e2e_okn`, `Props/C12NoFuel3.lean`) -/
 def C12Clause15 : Prop :=
   ∀ {b mc : Nat} (x : UReq) (xs : List UReq) (y : UReq) {t : Transport}
     {fuel : Nat} (i : Nat) (post : List RdAns)
-    (hok : ∀ z ∈ x :: xs, z.OKu b) (hoky : y.OKu b) (hleft : ((x :: xs).getLast (by simp)).left = [])
+    (hok : ∀ z ∈ x :: xs, z.OKn b) (hoky : y.OKn b) (hleft : ((x :: xs).getLast (by simp)).left = [])
     (hin : t.input = x.wire) (hben : Ben t) (hem : t.endMode = .pend) (hev : hsCount t.events = 0)
     (hfuel : t.rd.length + t.wr.length + 1 ≤ fuel),
     ∃ c₁ A n,
@@ -4310,7 +4314,7 @@ def C12Clause15 : Prop :=
 
 theorem C12Clause15_holds : C12Clause15 := by
   unfold C12Clause15
-  exact @read_error_in_last_request_at_index_e2e
+  exact @read_error_in_last_request_at_index_e2e_okn
 
 end Fcgi.C12E
 end
@@ -4318,12 +4322,12 @@ end
 section
 namespace Fcgi.C12E
 open Fcgi Fcgi.Req Fcgi.Str Fcgi.Async Fcgi.Run Fcgi.Spec Fcgi.E2E Fcgi.C07E Fcgi.C07U Fcgi.C12Inv Fcgi.Indep3 Fcgi.EofErr
-/-- the same with the failing write answer IN THE SCRIPT FROM THE START (one closed-loop run on the faulty transport); restriction `hrem`: the benign prefix leaves at least one answer of `pre`, i.e. the fault is not the very first write answer of the last request  (= `Fcgi.C12E.write_error_in_last_request_e2e_whole`, `Props/C12Chain3.lean`) -/
+/-- the same with the failing write answer IN THE SCRIPT FROM THE START (one closed-loop run on the faulty transport); restriction `hrem`: the benign prefix leaves at least one answer of `pre`, i.e. the fault is not the very first write answer of the last request  (= `Fcgi.C12E.write_error_in_last_request_e2e_whole_okn`, `Props/C12NoFuel3.lean`) -/
 def C12Clause16 : Prop :=
   ∀ {b mc : Nat} (x : UReq) (xs : List UReq) (y : UReq) {t : Transport}
     {fuel : Nat} (pre post : List WrAns) (bad : WrAns) (hbad : bad = .err ∨ bad = .zero)
     (hwr : t.wr = pre ++ bad :: post)
-    (hok : ∀ z ∈ x :: xs, z.OKu b) (hoky : y.OKu b) (hleft : ((x :: xs).getLast (by simp)).left = [])
+    (hok : ∀ z ∈ x :: xs, z.OKn b) (hoky : y.OKn b) (hleft : ((x :: xs).getLast (by simp)).left = [])
     (hin : t.input = x.wire) (hben : Ben { t with wr := pre }) (hem : t.endMode = .pend) (hev : hsCount t.events = 0)
     (hfuel : t.rd.length + pre.length + 1 ≤ fuel),
     ∃ c₁ A n,
@@ -4347,7 +4351,7 @@ def C12Clause16 : Prop :=
 
 theorem C12Clause16_holds : C12Clause16 := by
   unfold C12Clause16
-  exact @write_error_in_last_request_e2e_whole
+  exact @write_error_in_last_request_e2e_whole_okn
 
 end Fcgi.C12E
 end
@@ -4355,11 +4359,11 @@ end
 section
 namespace Fcgi.C12E
 open Fcgi Fcgi.Req Fcgi.Str Fcgi.Async Fcgi.Run Fcgi.Spec Fcgi.E2E Fcgi.C07E Fcgi.C07U Fcgi.C12Inv Fcgi.Indep3 Fcgi.EofErr
-/-- … and for an erroring READ answer present from the start (same restriction)  (= `Fcgi.C12E.read_error_in_last_request_at_index_e2e_whole`, `Props/C12Chain3.lean`) -/
+/-- … and for an erroring READ answer present from the start (same restriction)  (= `Fcgi.C12E.read_error_in_last_request_at_index_e2e_whole_okn`, `Props/C12NoFuel3.lean`) -/
 def C12Clause17 : Prop :=
   ∀ {b mc : Nat} (x : UReq) (xs : List UReq) (y : UReq) {t : Transport}
     {fuel : Nat} (pre post : List RdAns) (hrd : t.rd = pre ++ .err :: post)
-    (hok : ∀ z ∈ x :: xs, z.OKu b) (hoky : y.OKu b) (hleft : ((x :: xs).getLast (by simp)).left = [])
+    (hok : ∀ z ∈ x :: xs, z.OKn b) (hoky : y.OKn b) (hleft : ((x :: xs).getLast (by simp)).left = [])
     (hin : t.input = x.wire) (hben : Ben { t with rd := pre }) (hem : t.endMode = .pend) (hev : hsCount t.events = 0)
     (hfuel : pre.length + t.wr.length + 1 ≤ fuel),
     ∃ c₁ A n,
@@ -4381,7 +4385,7 @@ def C12Clause17 : Prop :=
 
 theorem C12Clause17_holds : C12Clause17 := by
   unfold C12Clause17
-  exact @read_error_in_last_request_at_index_e2e_whole
+  exact @read_error_in_last_request_at_index_e2e_whole_okn
 
 end Fcgi.C12E
 end
